@@ -48,6 +48,16 @@ def desugar(loc, relfile, fn_paths, rules):
                     rewrites.append((v["call"][0], v["call"][1], new))
                     records.append({"fn": fp, "rule": "D7 RECV.map_err(|_| { S; E })  =>  match RECV { Ok(v) => Ok(v), Err(_) => { S; Err(E) } }",
                                     "original": src[v["call"][0]:v["call"][1]], "rewritten": new})
+                elif v["rule"] == "D4":
+                    recv = src[v["recv"][0]:v["recv"][1]]
+                    pat = src[v["pat"][0]:v["pat"][1]]
+                    body = src[v["body"][0]:v["body"][1]]
+                    if not v.get("is_block"):
+                        body = "{ " + body + "; }"
+                    new = "for " + pat + " in " + recv + " " + body
+                    rewrites.append((v["call"][0], v["call"][1], new))
+                    records.append({"fn": fp, "rule": "D4 X.iter().for_each(|p| B)  =>  for p in X.iter() { B }",
+                                    "original": src[v["call"][0]:v["call"][1]], "rewritten": new})
     if not rewrites:
         raise Undecided(f"{relfile}: desugaring requested for {fn_paths} but no candidate of rules {rules} found")
     rewrites.sort(reverse=True)
@@ -103,7 +113,7 @@ def _locate_path(path, relfile):
                     it[k] = conv(it[k])
             for v in it.get("vd", []):
                 for k in list(v.keys()):
-                    if k != "rule":
+                    if k not in ("rule", "is_block"):
                         v[k] = conv(v[k])
     data["src"] = src
     items = {}
